@@ -685,7 +685,14 @@ def subst(t: Term, mapping: Dict[Term, Term], _memo=None) -> Term:
     elif k == "ite":
         r = mk_ite(S(t[1]), S(t[2]), S(t[3]))
     elif k == "call":
-        f = S(t[1]) if isinstance(t[1], tuple) else t[1]
+        f = t[1]
+        if isinstance(f, tuple):
+            if f[0] == "attr":
+                # callee = method of a receiver: keep replace/ite receivers intact (x.replace(a=1).m() is not x.m())
+                rv = S(f[1])
+                f = ("attr", rv, f[2]) if rv[0] in ("replace", "ite") else mk_attr(rv, f[2])
+            else:
+                f = S(f)
         if isinstance(f, tuple) and f[0] == "sym":
             f = f[1]
         r = ("call", f, tuple(S(x) for x in t[2]), tuple((kk, S(v)) for kk, v in t[3]), t[4])
